@@ -6,7 +6,7 @@ set -u
 r="${VP_RUN_REPO:?needs vp run --with-repo}"
 tier="$1"; shift
 grep -rl '/repo\|/tmp/verif-c' harness/go.mod harness/cmd instr/main.go run | \
-  xargs sed -i "s#=> /repo#=> $r#; s#\"/repo#\"$r#g; s#/tmp/verif-c\([0-9]*\)-instr#/tmp/verif-snap$$-c\1-instr#g; s#/tmp/verif-\"\$lc\"-instr#/tmp/verif-snap$$-\"\$lc\"-instr#"
+  xargs sed -i "s#=> /repo#=> $r#g; s#\"/repo#\"$r#g; s#/tmp/verif-c\([0-9]*\)-instr#/tmp/verif-snap$$-c\1-instr#g; s#/tmp/verif-\"\$lc\"-instr#/tmp/verif-snap$$-\"\$lc\"-instr#"
 rc_all=0
 for c in "$@"; do
   s=$(date +%s)
